@@ -435,6 +435,11 @@ func checkChainValue(r *core.Run, db, typ, effective string, pol policyCase, bin
 	}
 }
 
+func isRangeErr(err error) bool {
+	ne, ok := err.(*strconv.NumError)
+	return ok && ne.Err == strconv.ErrRange
+}
+
 func fmtName(b bool) string {
 	if b {
 		return "binary"
@@ -487,7 +492,15 @@ func runRead(r *core.Run, db, typ string, pol policyCase, binaryFmt bool, blobs 
 		}
 		if want == nil {
 			r.Tag("owner:unrepresentable")
-			continue // the original value is not a value of the declared type: nothing to demand
+			// nothing to demand – except that an out-of-range decimal is never wrapped into some other integer
+			if _, err := strconv.ParseInt(string(m), 10, 64); (typ == "int32" || typ == "int64") && (err == nil || isRangeErr(err)) {
+				if out, _, _, ok := parseValue(got); ok {
+					width := bitsOf(typ) / 8
+					wrapped := binaryFmt && len(out) == width
+					r.Check(!wrapped, "int-wrapped", fmt.Sprintf("%s %s: out-of-range decimal %q delivered as the %d-byte integer %x", db, typ, m, width, out))
+				}
+			}
+			continue
 		}
 		out, rb, ftype, ok := parseValue(got)
 		if !r.Check(ok, "typed-owner", fmt.Sprintf("%s %s %s: owner does not receive a value for %q: %s", db, typ, fmtName(binaryFmt), m, got)) {
